@@ -186,12 +186,13 @@ where
                 );
 
                 // Snapshot current state before applying commit (for rollback support)
+                let epoch_before_merge = mls_group.epoch().as_u64();
                 if self
                     .epoch_snapshots
                     .create_snapshot(
                         self.storage(),
                         &group.mls_group_id,
-                        mls_group.epoch().as_u64(),
+                        epoch_before_merge,
                         &event.id,
                         event.created_at.as_secs(),
                     )
@@ -232,11 +233,28 @@ where
                     };
                 }
 
-                // Save exporter secret for the new epoch
-                self.exporter_secret(&group.mls_group_id)?;
+                // Save exporter secret for the new epoch, then sync the stored group metadata
+                // with the updated MLS group state
+                let stored = self
+                    .exporter_secret(&group.mls_group_id)
+                    .and_then(|_| self.sync_group_metadata_from_mls(&group.mls_group_id));
 
-                // Sync the stored group metadata with the updated MLS group state
-                self.sync_group_metadata_from_mls(&group.mls_group_id)?;
+                if let Err(e) = stored {
+                    // See process_commit: a commit that cannot be stored is reported as failed,
+                    // so undo the merge with the snapshot taken above.
+                    if self
+                        .epoch_snapshots
+                        .rollback_to_epoch(self.storage(), &group.mls_group_id, epoch_before_merge)
+                        .is_err()
+                    {
+                        tracing::warn!(
+                            target: "mdk_core::messages::dispatch_by_content_type",
+                            "Failed to restore epoch {} after an own commit that could not be stored",
+                            epoch_before_merge
+                        );
+                    }
+                    return Err(e);
+                }
 
                 // Update self-update tracking if this was a self-update commit
                 if is_self_update {
